@@ -445,6 +445,44 @@ func runC10(r *ev.Run) {
 						break
 					}
 				}
+				// a second restart: what the recovered store acknowledged (the new flush) and what it returned right
+				// after the crash must survive the next clean Close/Open too
+				if err := rs.Close(); err != nil {
+					rep("crash.close-after-reopen-fails", fmt.Sprintf("image %s: %v", v.origin, err), wit())
+					return
+				}
+				rs2, err := p.open(idir)
+				if err != nil {
+					rep("crash.second-reopen-fails", fmt.Sprintf("image %s: Open after crash, reopen, add, Flush, Close failed: %v", v.origin, err), wit())
+					return
+				}
+				defer rs2.Close()
+				b := searchAllModalities(rs2, p)
+				if b.Err != nil {
+					rep("crash.search-fails", fmt.Sprintf("image %s (second restart): %v", v.origin, b.Err), wit())
+					return
+				}
+				for name, pair := range map[string][2]map[uint32]bool{"vector": {a.Vec, b.Vec}, "text": {a.Text, b.Text}, "metadata": {a.Meta, b.Meta}} {
+					if pair[0] == nil {
+						continue
+					}
+					if !pair[1][nd.ID] {
+						rep("crash.durable-document-lost.second-restart", fmt.Sprintf("image %s: document %d, added and flushed (nil) after the recovery, is not returned by the %s query after the next clean restart", v.origin, nd.ID, name), wit())
+						break
+					}
+					var gone []uint32
+					for id := range pair[0] {
+						if !pair[1][id] {
+							gone = append(gone, id)
+						}
+					}
+					if len(gone) > 0 {
+						sort.Slice(gone, func(i, j int) bool { return gone[i] < gone[j] })
+						rep("crash.durable-document-lost.second-restart", fmt.Sprintf("image %s: %d documents returned by the %s query right after the recovery are gone after the next clean restart, e.g. %v", v.origin, len(gone), name, head(gone, 5)), wit())
+						break
+					}
+				}
+				r.Count("probes:second-restart", 1)
 				inside := vi > 0
 				r.Eval(inside && len(durable) > 0, ev.Digest(v.img.digest()))
 			}()
